@@ -161,9 +161,14 @@ func c03ReadySplit(c *core.Ctx) {
 					continue
 				}
 				cond, _ := t.InstrCond(call)
-				bind, _, _ := bindDeps(t, cond, matchers{"nilReady": has(".Conditions.Ready == nil)"), "ready": func(k string) bool {
+				mReady := matchers{"nilReady": has(".Conditions.Ready == nil)"), "ready": func(k string) bool {
 					return strings.HasSuffix(k, ".Conditions.Ready") && !strings.Contains(k, "==")
-				}})
+				}}
+				bind, _, _ := bindDeps(t, cond, mReady)
+				if miss := missingBound(bind, mReady); len(miss) > 0 {
+					c.Violated("createEndpointSlices: list depends on the Ready condition", at(c, call), fmt.Sprintf("the list an endpoint goes to does not depend on %v", miss))
+					continue
+				}
 				isReady := appendFlowsToResult(fn, call, 0)
 				want := func(v map[string]bool) bool { return v["nilReady"] || v["ready"] }
 				if !isReady {
